@@ -197,9 +197,10 @@ where
     #[pin]
     inner: InnerCheckoutConnecting<T, P, B>,
     connection: Option<P::Connection>,
-    /// Did this checkout mark its key as "connecting" in the pool? Only that
-    /// checkout may clear the mark again.
-    marked_connecting: bool,
+    /// The mark this checkout placed on its key when it marked it as "connecting"
+    /// in the pool. Only that checkout may clear the mark again, and only while
+    /// the mark is still its own.
+    marked_connecting: Option<usize>,
     meta: ConnectorMeta,
     #[cfg(debug_assertions)]
     id: CheckoutId,
@@ -280,7 +281,7 @@ where
             waiter: Waiting::NoPool,
             inner: InnerCheckoutConnecting::Connecting(connector),
             connection: None,
-            marked_connecting: false,
+            marked_connecting: None,
             meta: ConnectorMeta::new(),
             #[cfg(debug_assertions)]
             id,
@@ -293,7 +294,7 @@ where
         waiter: Receiver<Pooled<P::Connection, B>>,
         connect: Option<Connector<T, P, B>>,
         connection: Option<P::Connection>,
-        marked_connecting: bool,
+        marked_connecting: Option<usize>,
         config: &Config,
     ) -> Self {
         #[cfg(debug_assertions)]
@@ -550,11 +551,11 @@ where
                     tracing::error!(error=%err, "error during delayed drop");
                 }
             });
-        } else if self.marked_connecting {
+        } else if let Some(mark) = self.marked_connecting {
             // Connection is only cancled when no delayed drop occurs, and only
             // by the checkout which marked it as in progress.
             if let Some(mut pool) = self.pool.lock() {
-                pool.cancel_connection(self.token);
+                pool.cancel_connection(self.token, mark);
             }
         }
     }
